@@ -21,8 +21,9 @@ pub enum SchedSpec {
     /// PCT: random task priorities, `depth - 1` priority change points among the first `span` steps.
     Pct { seed: u64, depth: u32, span: u32 },
     /// Follow the given task ids; where the recorded task is not runnable or the list is
-    /// exhausted, fall back to `Sticky`.
-    Trace(Vec<u32>),
+    /// exhausted, fall back to `Sticky`. `rands` are the values handed to the program's
+    /// simulated randomness (e.g. "does this timeout fire now"), 0 when exhausted.
+    Trace { tasks: Vec<u32>, rands: Vec<u64> },
 }
 
 impl SchedSpec {
@@ -41,11 +42,15 @@ impl SchedSpec {
             }),
             "trace" => {
                 let list = it.next().unwrap_or("");
-                let mut v = Vec::new();
+                let mut tasks = Vec::new();
                 for t in list.split(',').filter(|t| !t.is_empty()) {
-                    v.push(t.parse().ok()?);
+                    tasks.push(t.parse().ok()?);
                 }
-                Some(SchedSpec::Trace(v))
+                let mut rands = Vec::new();
+                for t in it.next().unwrap_or("").split(',').filter(|t| !t.is_empty()) {
+                    rands.push(t.parse().ok()?);
+                }
+                Some(SchedSpec::Trace { tasks, rands })
             }
             _ => None,
         }
@@ -56,9 +61,10 @@ impl SchedSpec {
             SchedSpec::RoundRobin => "rr".into(),
             SchedSpec::Random(s) => format!("random:{s}"),
             SchedSpec::Pct { seed, depth, span } => format!("pct:{seed}:{depth}:{span}"),
-            SchedSpec::Trace(v) => format!(
-                "trace:{}",
-                v.iter().map(|t| t.to_string()).collect::<Vec<_>>().join(",")
+            SchedSpec::Trace { tasks, rands } => format!(
+                "trace:{}:{}",
+                tasks.iter().map(|t| t.to_string()).collect::<Vec<_>>().join(","),
+                rands.iter().map(|t| t.to_string()).collect::<Vec<_>>().join(",")
             ),
         }
     }
@@ -80,23 +86,39 @@ impl SchedSpec {
 
 /// Shared record of the decisions of one execution.
 #[derive(Clone, Default)]
-pub struct TraceHandle(pub Arc<Mutex<Vec<u32>>>);
+pub struct TraceHandle(pub Arc<Mutex<Vec<u32>>>, pub Arc<Mutex<Vec<u64>>>);
 
 impl TraceHandle {
-    pub fn take(&self) -> Vec<u32> {
-        std::mem::take(&mut *self.0.lock().unwrap())
-    }
+    /// The task chosen at every scheduling point so far.
     pub fn snapshot(&self) -> Vec<u32> {
         self.0.lock().unwrap().clone()
     }
+    /// The random values handed out so far.
+    pub fn rands(&self) -> Vec<u64> {
+        self.1.lock().unwrap().clone()
+    }
+    /// The execution so far as a schedule that replays it exactly.
+    pub fn as_spec(&self) -> SchedSpec {
+        SchedSpec::Trace { tasks: self.snapshot(), rands: self.rands() }
+    }
+    fn clear(&self) {
+        self.0.lock().unwrap().clear();
+        self.1.lock().unwrap().clear();
+    }
 }
 
+/// Supplies the schedule of the next execution of a batch (`None` ends the batch).
+pub type SpecProvider = Box<dyn FnMut(&SchedSpec) -> Option<SchedSpec> + Send>;
+// (argument: the previous execution of the batch as an exactly replaying `Trace` schedule)
+
 pub struct SimScheduler {
+    provider: Option<SpecProvider>,
     spec: SchedSpec,
     rng: Rng,
     started: bool,
     step: u32,
     rr_last: usize,
+    rand_pos: usize,
     /// PCT state: priority per task id (higher runs first), remaining change points.
     prio: Vec<u64>,
     change_points: Vec<u32>,
@@ -104,6 +126,41 @@ pub struct SimScheduler {
 }
 
 impl SimScheduler {
+    /// One `Runner`, many executions: before each execution `provider` is asked for the next
+    /// schedule (it is also the place to harvest the results of the previous execution). All
+    /// scheduler state is reset per execution, so a run behaves exactly as under `new(spec)`;
+    /// the point is that shuttle re-uses its coroutine stacks within one `Runner::run`.
+    pub fn batch(provider: SpecProvider) -> (Self, TraceHandle) {
+        let (mut s, t) = Self::new(SchedSpec::Sticky);
+        s.provider = Some(provider);
+        (s, t)
+    }
+
+    fn reset(&mut self, spec: SchedSpec) {
+        let (rng, change_points) = Self::init(&spec);
+        self.spec = spec;
+        self.rng = rng;
+        self.change_points = change_points;
+        self.step = 0;
+        self.rr_last = 0;
+        self.prio.clear();
+        self.trace.clear();
+        self.rand_pos = 0;
+    }
+
+    fn init(spec: &SchedSpec) -> (Rng, Vec<u32>) {
+        match spec {
+            SchedSpec::Random(s) => (Rng::new(*s), vec![]),
+            SchedSpec::Pct { seed, depth, span } => {
+                let mut r = Rng::new(*seed);
+                let mut cps: Vec<u32> = (1..*depth).map(|_| r.below(*span as u64) as u32).collect();
+                cps.sort_unstable();
+                (r, cps)
+            }
+            _ => (Rng::new(0), vec![]),
+        }
+    }
+
     pub fn new(spec: SchedSpec) -> (Self, TraceHandle) {
         let trace = TraceHandle::default();
         let (rng, change_points) = match &spec {
@@ -118,11 +175,13 @@ impl SimScheduler {
         };
         (
             SimScheduler {
+                provider: None,
                 spec,
                 rng,
                 started: false,
                 step: 0,
                 rr_last: 0,
+                rand_pos: 0,
                 prio: Vec::new(),
                 change_points,
                 trace: trace.clone(),
@@ -143,6 +202,16 @@ impl SimScheduler {
 
 impl Scheduler for SimScheduler {
     fn new_execution(&mut self) -> Option<Schedule> {
+        if let Some(p) = self.provider.as_mut() {
+            let previous = self.trace.as_spec();
+            return match p(&previous) {
+                Some(spec) => {
+                    self.reset(spec);
+                    Some(Schedule::new(0))
+                }
+                None => None,
+            };
+        }
         if self.started {
             None
         } else {
@@ -217,7 +286,7 @@ impl Scheduler for SimScheduler {
                 }
                 TaskId::from(ids.iter().copied().max_by_key(|i| self.prio[*i]).unwrap())
             }
-            SchedSpec::Trace(list) => {
+            SchedSpec::Trace { tasks: list, .. } => {
                 let want = list.get(step as usize).map(|t| *t as usize);
                 match want {
                     Some(w) if runnable.iter().any(|t| usize::from(t.id()) == w) => TaskId::from(w),
@@ -242,6 +311,12 @@ impl Scheduler for SimScheduler {
     }
 
     fn next_u64(&mut self) -> u64 {
-        self.rng.next()
+        let v = match &self.spec {
+            SchedSpec::Trace { rands, .. } => rands.get(self.rand_pos).copied().unwrap_or(0),
+            _ => self.rng.next(),
+        };
+        self.rand_pos += 1;
+        self.trace.1.lock().unwrap().push(v);
+        v
     }
 }
